@@ -225,6 +225,9 @@ def lzma2_material(run, nq, nt, nreal_q, nreal_t):
 
 def c02(run: Run):
     mats = lzma2_material(run, 120, 2000, 25, 300)
+    # chunk size extremes from the reference encoder: packed size exactly 65536, unpacked exactly 2 MiB
+    for b in core.gen_material("lzma2big", 1, 2):
+        mats.append(dict(payload=b["payload"], out=b["out"], desc="extreme:" + b.get("what", "")))
     if run.tier == "thorough":
         # size extremes: 64 KiB uncompressed chunk, 2 MiB unpacked compressed chunk (from liblzma)
         big = bytes((i * 7 + i // 300) & 0xFF for i in range(3 * 1024 * 1024))
@@ -262,7 +265,7 @@ def xz_files(run, n, lz2):
                 if rng.chance(1, 4):
                     w[k] = rng.pick([2, 3, 5, 9])
             blocks.append(core.XzBlock(m["payload"], m["out"], decl_packed=rng.chance(1, 2),
-                                       decl_unpacked=rng.chance(1, 2), extra_pad_words=rng.pick([0, 0, 1, 3]),
+                                       decl_unpacked=rng.chance(1, 2), extra_pad_words=rng.pick([0, 0, 1, 3, 59, 60, 61, 120, 240, 249]),
                                        widths=w, props=bytes([rng.pick([0x16, 0, 40])])))
         rec = {}
         data = core.build_xz(check, blocks, rec)
@@ -310,6 +313,9 @@ def c04(run: Run):
     inputs = [b"", b"a", b"\x00", b"\xff", b"ab" * 30, bytes(300), b"\xff" * 300, bytes(range(256)) * 2]
     for _ in range(sizes(t, 6, 40)):
         inputs.append(rng.bytes(rng.pick([2, 17, 100, 1000])))
+    # lengths that put a 7-bit group of the XZ index sizes (U, U + 16, …) on 0 / 127 / 128
+    for n in [111, 112, 113, 127, 128, 129, 16367, 16368, 16383, 16384, 16385, 16400]:
+        inputs.append(bytes((i * 13) & 0xFF for i in range(n)))
     big = [65535, 65536, 65537, 131072] if t == "quick" else [65535, 65536, 65537, 131072, 131073, 196608]
     for n in big:
         inputs.append(bytes((i * 31 + i // 251) & 0xFF for i in range(n)))
@@ -509,21 +515,38 @@ def c05(run: Run):
 def c15(run: Run):
     rng = run.rng
     mats = [m for m in core.gen_material("lzma", run.seed + 15, 200) if m["dict"] >= 4096 and 0 < len(m["out"]) < 30000]
-    mats = mats[:sizes(run.tier, 14, 120)]
+    mats = mats[:sizes(run.tier, 12, 100)]
+    # outputs several times larger than the dictionary (laps of the window, copies ending on lap boundaries)
+    mats += [m for m in core.gen_material("lzmawrap", run.seed + 15, sizes(run.tier, 3, 20)) if len(m["out"]) > m["dict"]]
     groups = []
     for m in mats:
-        data = lzma_file(m)
-        tr = run.add("trace us=hdr in=%s" % data.hex(), oracle=None, cmp=False, tag="c15:trace", nontrivial=False)
-        cuts = sorted(set([18, 19, 20, 25, len(data) // 2, len(data) - 1, len(data)] +
-                          [rng.below(len(data)) + 1 for _ in range(sizes(run.tier, 4, 10))]))
-        for cut in cuts:
-            if cut < 18 or cut > len(data):
-                continue
-            pre = data[:cut]
-            for parts in chunkings(rng, len(pre), sizes(run.tier, 3, 6)):
-                k = run.add("stream us=hdr ai=1 full=1 ops=%s" % stream_ops(pre, parts), oracle=None,
-                            tag="c15:prefix", nontrivial=cut < len(data))
-                groups.append((k, tr, m, cut))
+        L = len(m["out"])
+        forms = [("hdr", lzma_file(m), 13)]
+        # 5-byte header (size supplied by the caller): header + preamble is 10 bytes, the staging buffer holds 18
+        forms.append(("up:%s" % ("none" if m["eos"] else L),
+                      lzma_header(m["lc"], m["lp"], m["pb"], m["dict"], "skip") + m["payload"], 5))
+        for us, data, hl in forms:
+            tr = run.add("trace us=%s in=%s" % (us, data.hex()), oracle=None, cmp=False, tag="c15:trace", nontrivial=False)
+            cuts = sorted(set([hl + 5, hl + 6, hl + 7, hl + 12, len(data) // 2, len(data) - 1, len(data)] +
+                              [rng.below(len(data)) + 1 for _ in range(sizes(run.tier, 3, 8))]))
+            for cut in cuts:
+                if cut < hl + 5 or cut > len(data):
+                    continue
+                pre = data[:cut]
+                chs = chunkings(rng, len(pre), sizes(run.tier, 2, 5))
+                # a first piece shorter than header + preamble, then everything else in one go
+                chs.append([rng.below(hl + 4) + 1, len(pre)])
+                for parts in chs:
+                    pieces = split_by(pre, parts)
+                    ops = []
+                    for c in pieces:
+                        ops.append("wa:" + c.hex())
+                        if rng.chance(1, 4):
+                            ops.append("f")          # Write::flush between writes
+                    ops.append("fin")
+                    k = run.add("stream us=%s ai=1 full=1 ops=%s" % (us, ";".join(ops)), oracle=None,
+                                tag="c15:prefix:" + us.split(":")[0], nontrivial=cut < len(data))
+                    groups.append((k, tr, m, cut))
 
     def post(run):
         traces = {}
